@@ -41,7 +41,7 @@ AllocAt(size) ==
               ELSE -1
          ELSE -1
 
-IInit == (\E c \in Configs : Init(c[1], c[2])) /\ front = 0 /\ end = 0 /\ bad = ""
+IInit == (\E c \in Configs : Init(CfgSize(c), CfgMin(c))) /\ front = 0 /\ end = 0 /\ bad = ""
 
 \* reset( buffer )
 IReset ==
